@@ -29,10 +29,13 @@ VARIABLES
     testnetFlag, developerFlag,   \* the network selection flags
     peersSrc, electrumSrc,        \* where the value was set explicitly, if at all
     contractSrc,                  \* Contracts -> Sources
+    netInFile,                    \* the config file also defines the `network` key of its ethereum and
+                                  \* bitcoin sections: "none", or "other" = a network different from the
+                                  \* one selected by the flags (the selection must win)
     resolved,                     \* the configuration after ReadConfig
     done                          \* ReadConfig returned
 
-vars == <<testnetFlag, developerFlag, peersSrc, electrumSrc, contractSrc, resolved, done>>
+vars == <<testnetFlag, developerFlag, peersSrc, electrumSrc, contractSrc, netInFile, resolved, done>>
 
 \* resolveNetworks: testnet wins over developer, neither means mainnet
 ClientNetwork(t, d) == IF t THEN "testnet" ELSE IF d THEN "developer" ELSE "mainnet"
@@ -55,12 +58,13 @@ Init ==
     /\ testnetFlag \in BOOLEAN /\ developerFlag \in BOOLEAN
     /\ peersSrc \in PeerSources /\ electrumSrc \in Sources
     /\ contractSrc \in [Contracts -> ContractSources]
+    /\ netInFile \in {"none", "other"}
     /\ resolved = [network |-> "pending"] /\ done = FALSE
 
 Read ==
     /\ ~done /\ done' = TRUE
     /\ resolved' = Resolve(testnetFlag, developerFlag, peersSrc, electrumSrc, contractSrc)
-    /\ UNCHANGED <<testnetFlag, developerFlag, peersSrc, electrumSrc, contractSrc>>
+    /\ UNCHANGED <<testnetFlag, developerFlag, peersSrc, electrumSrc, contractSrc, netInFile>>
 
 Next == Read
 Spec == Init /\ [][Next]_vars
